@@ -34,6 +34,7 @@ deriving DecidableEq, Repr
 inductive Reply
   | resp (r : Resp)
   | fail                       -- transport error (no response)
+  | cancel                     -- the reply is slow and the caller's context is cancelled while waiting
 deriving DecidableEq, Repr
 
 /-- what happened on the wire, newest first -/
@@ -76,6 +77,7 @@ def serve (st : St) (r : Req) : St × Except Err Resp :=
   match st.script with
   | [] => ({ st with log := .rep defaultResp :: .req r :: st.log }, .ok defaultResp)
   | .fail :: rest => ({ st with log := .req r :: st.log, script := rest }, .error .transport)
+  | .cancel :: rest => ({ st with log := .req r :: st.log, script := rest, cancelled := true }, .error .ctx)
   | .resp p :: rest => ({ st with log := .rep p :: .req r :: st.log, script := rest }, .ok p)
 
 /-- `addNonce` -/
@@ -265,5 +267,6 @@ def scriptNonces : List Reply → List String
   | [] => []
   | .resp p :: l => (match p.nonce with | some v => v :: scriptNonces l | none => scriptNonces l)
   | .fail :: l => scriptNonces l
+  | .cancel :: l => scriptNonces l
 
 end XC.C50
